@@ -32,21 +32,101 @@ class Child(object):
         self.futile = 0
 
 
-def _install_gates(report_w, go_r, formats_halfway=True):
-    """Runs in the child: wrap filelock / PyramidIO / Image.save with gates."""
+OS_GATED = ("open", "link", "symlink", "unlink", "remove", "rename", "replace", "stat", "lstat", "mkdir", "rmdir", "utime", "listdir", "scandir")
+OSPATH_GATED = ("exists", "lexists", "isfile", "isdir", "getmtime", "getsize", "getctime")
+
+
+def _install_gates(report_w, go_r, formats_halfway=True, opts=None):
+    """Runs in the child: wrap filelock / PyramidIO / Image.save with gates.
+
+    opts: {"lock_fault": k} - the k-th creation of a lock marker (an os.open(..., O_CREAT) of a path ending in .lock)
+    in this child fails with OSError(EDQUOT), a transient fault at exactly the lock-acquire step."""
+    import errno
     import filelock
     import filelock._api as fapi
+    import toasty.pyramid as tpyr
     from toasty.pyramid import PyramidIO
     from toasty.image import Image
 
+    opts = opts or {}
+    _read, _write = os.read, os.write
+
     def say(line):
-        os.write(report_w, (line + "\n").encode())
+        _write(report_w, (line + "\n").encode())
 
     def gate(name):
         say("gate " + name)
-        b = os.read(go_r, 1)
+        b = _read(go_r, 1)
         if not b:
             os._exit(3)
+
+    state = {"in_update": 0, "lock_creates": 0}
+
+    # (1) a fault at the lock-acquire step
+    if opts.get("lock_fault"):
+        _real_open = os.open
+
+        def _open(path, flags, *a, **k):
+            if isinstance(path, (str, bytes, os.PathLike)) and os.fspath(path).endswith(".lock" if isinstance(os.fspath(path), str) else b".lock") and (flags & os.O_CREAT):
+                state["lock_creates"] += 1
+                if state["lock_creates"] == opts["lock_fault"]:
+                    say("ev lock-fault-injected")
+                    raise OSError(errno.EDQUOT, "Disk quota exceeded (injected by the harness)", os.fspath(path))
+            return _real_open(path, flags, *a, **k)
+
+        os.open = _open
+
+    # (2) whatever file-system call the pyramid module itself makes while a read-modify-write is in progress (a home-made
+    # lock, a clean-up, an existence probe) is a gate too, so that such a step can be placed between any two steps of
+    # another updater; with the stock SoftFileLock nothing but the occasional unlink of an emptied tile passes here
+    class _PathProxy(object):
+        def __init__(self, real):
+            self._real = real
+
+        def __getattr__(self, name):
+            v = getattr(self._real, name)
+            if name in OSPATH_GATED:
+                def w(*a, **k):
+                    if state["in_update"] > 0:
+                        gate("os.path.%s %s" % (name, os.path.basename(str(a[0])) if a else ""))
+                    return v(*a, **k)
+
+                return w
+            return v
+
+    class _OsProxy(object):
+        def __init__(self, real):
+            self._real = real
+            self.path = _PathProxy(real.path)
+
+        def __getattr__(self, name):
+            v = getattr(self._real, name)
+            if name in OS_GATED:
+                def w(*a, **k):
+                    if state["in_update"] > 0:
+                        gate("os.%s %s" % (name, os.path.basename(str(a[0])) if a else ""))
+                    return v(*a, **k)
+
+                return w
+            return v
+
+    if not isinstance(getattr(tpyr, "os", None), _OsProxy) and not getattr(tpyr, "_vt_os_proxied", False):
+        tpyr.os = _OsProxy(os)
+        tpyr._vt_os_proxied = True
+        from contextlib import contextmanager
+
+        orig_update = PyramidIO.update_image
+
+        @contextmanager
+        def update_image(self, *a, **k):
+            state["in_update"] += 1
+            try:
+                with orig_update(self, *a, **k) as basis:
+                    yield basis
+            finally:
+                state["in_update"] -= 1
+
+        PyramidIO.update_image = update_image
 
     # No real waiting between lock attempts: the controller decides when to retry. The waiting
     # process's clock is virtual: a scheduler may delay a process for arbitrarily long, so every
@@ -139,11 +219,11 @@ def _install_gates(report_w, go_r, formats_halfway=True):
     return say, gate
 
 
-def run_child(report_w, go_r, prog):
+def run_child(report_w, go_r, prog, opts=None):
     """the body of a gated child once its pipes exist (used after fork and by the exec'd interpreter)"""
     devnull = os.open(os.devnull, os.O_WRONLY)
     os.dup2(devnull, 1)
-    say, gate = _install_gates(report_w, go_r)
+    say, gate = _install_gates(report_w, go_r, opts=opts)
     gate("start")
     try:
         prog()
@@ -160,9 +240,11 @@ class GatedRun(object):
     callable); with fresh_interpreters=True such a child is a newly started Python interpreter (fork + exec) with its
     own PYTHONHASHSEED, i.e. an independently started job rather than a forked worker."""
 
-    def __init__(self, programs, fresh_interpreters=False):
+    def __init__(self, programs, fresh_interpreters=False, child_opts=None):
         import importlib
         import json
+
+        child_opts = child_opts or {}
 
         self.children = []
         self.order = []  # global order of completed steps: (child, what)
@@ -184,11 +266,11 @@ class GatedRun(object):
                             os.set_inheritable(r2, True)
                             env = dict(os.environ)
                             env["PYTHONHASHSEED"] = str(1000 + 7 * i)
-                            os.execve(sys.executable, [sys.executable, "-m", "vt.gated", str(w1), str(r2), json.dumps(prog)], env)
+                            os.execve(sys.executable, [sys.executable, "-m", "vt.gated", str(w1), str(r2), json.dumps(dict(prog, opts=child_opts.get(i)))], env)
                         prog = getattr(importlib.import_module(prog["module"]), prog["func"])(*prog["args"])
                     devnull = os.open(os.devnull, os.O_WRONLY)
                     os.dup2(devnull, 1)
-                    say, gate = _install_gates(w1, r2)
+                    say, gate = _install_gates(w1, r2, opts=child_opts.get(i))
                     gate("start")
                     try:
                         prog()
@@ -321,6 +403,6 @@ if __name__ == "__main__":
     _w, _r, _spec = int(sys.argv[1]), int(sys.argv[2]), json.loads(sys.argv[3])
     try:
         _prog = getattr(importlib.import_module(_spec["module"]), _spec["func"])(*_spec["args"])
-        run_child(_w, _r, _prog)
+        run_child(_w, _r, _prog, opts=_spec.get("opts"))
     finally:
         os._exit(0)
